@@ -4,7 +4,18 @@ import GluonModel.CoreParse
 import GluonModel.Bytecode
 import GluonModel.BytecodeParse
 import GluonModel.Compile
+import GluonModel.Proofs.Compile
 open GluonModel GluonModel.Core GluonModel.Bytecode
+
+/-- every function body of a program: the closures' bodies, at any depth -/
+partial def bodies : Expr → List Expr
+  | .const _ => [] | .ident _ => []
+  | .call f args => bodies f ++ (args.map bodies).flatten
+  | .data _ args => (args.map bodies).flatten
+  | .letE _ e b => bodies e ++ bodies b
+  | .letRec cs b => (cs.map fun c => c.2.2 :: bodies c.2.2).flatten ++ bodies b
+  | .match_ s alts => bodies s ++ (alts.map fun a => bodies a.2).flatten
+  | .cast e => bodies e
 
 def globalsFor (gs : List Sym) (env : Env) : Option (List Val) :=
   gs.mapM (lookup env)
@@ -28,6 +39,12 @@ def handle : List Sexp → String
       | (gs, f, none) => renderModule gs f
       | (_, _, some why) => "unsupported:" ++ why
     | _, _ => "bad-request"
+  | [.atom "fragcount", e] =>
+    match parseExpr e with
+    | some e =>
+      let bs := e :: bodies e
+      s!"({bs.length} {(bs.filter Proofs.Compile.inF).length})"
+    | none => "bad-request"
   | _ => "unimplemented"
 
 def main : IO Unit := driverLoop handle
